@@ -83,12 +83,22 @@ def stateTok (inp : TileIn) (inverted : Bool) : String :=
     toString inp.modIcon, b01 inp.solid, toString inp.pair, hexOfNats inp.title, hexOfNats inp.line1, hexOfNats inp.line2,
     scaleTok inp.scale, stylingTok inp.styling, colTok inp.pix, colTok inp.bg]
 
+/-- optional flags after the 19 tokens: "also print the RGB565 export", "compare with a fresh process", "first render a
+sibling state with absent sub-messages and edit what the renderer filled in" (mask).  Only the first means something for
+the model; the other two change what the harness does around the call (the model is a function of its inputs). -/
+def parseFlags : List String → Option Bool
+  | [] => some false
+  | [f] => parseBool f
+  | [f, g] => (parseBool g).bind (fun _ => parseBool f)
+  | [f, g, m] => (parseBool g).bind (fun _ => m.toNat?.bind (fun _ => parseBool f))
+  | _ => none
+
 /-- args: w h shrink border inverted iv iv2 fmt si mi solid pair title line1 line2 scale styling pix bg -/
 def parseArgs (a : List String) : Option Parsed :=
   match a with
   | w :: h :: sh :: bo :: inv :: iv :: iv2 :: fmt :: si :: mi :: solid :: pair :: title :: l1 :: l2 :: sc :: sty :: pix :: bg :: more => do
     let title ← unhex title; let l1 ← unhex l1; let l2 ← unhex l2
-    let rgb ← (match more with | [] => some false | [f] => parseBool f | [f, g] => (parseBool g).bind (fun _ => parseBool f) | _ => none)
+    let rgb ← parseFlags more
     pure { w := ← w.toNat?, h := ← h.toNat?, shrink := ← parseInt sh, border := ← parseInt bo, inverted := ← parseBool inv,
            inp := { intVal := ← parseInt iv, intVal2 := ← parseInt iv2, fmt := ← parseInt fmt, stateIcon := ← parseInt si,
                     modIcon := ← parseInt mi, solid := ← parseBool solid, pair := ← parseInt pair,
